@@ -184,6 +184,15 @@ pub open spec fn member_key<C: KeyOfSetColumn>(k: &C::Key, e: &C::Element) -> Se
 //@ include inc/c11_ops.rs
 pub mod rust_rocksdb {
     use super::*;
+    /// interface stand-in for rust_rocksdb::WriteOptions
+    #[verifier::external_body]
+    pub struct WriteOptions { _p: u8 }
+    impl WriteOptions {
+        #[verifier::external_body]
+        pub fn default() -> Self { unimplemented!() }
+        #[verifier::external_body]
+        pub fn disable_wal(&mut self, disable: bool) { unimplemented!() }
+    }
     /// interface stand-in for rust_rocksdb::WriteBatch: an ordered log of operations (atomic application at `write`: trusted backend)
     #[verifier::external_body]
     pub struct WriteBatch { _p: u8 }
@@ -295,6 +304,10 @@ pub proof fn lemma_ops_cost_take(ops: Seq<Operation>, i: int)
         ensures final(self).batch.ops() == old(self).batch.ops().push(BOp::Del {
             ty: C::STABLE_TYPE_ID, kind: ColumnKind::KeyOfSet, key: member_key::<C>(key, value) })
 //@ member should_write_more
+//@ member commit
+//@ sig
+        // whatever the batch holds -- also when its size estimate is 0 (empty keys, deletions only) -- is handed to the store
+        ensures written(self.batch.ops())
 //@ end
 
 //@ impl crates/storage/src/kv_database/rocksdb.rs :: impl SerializationBuffer for RocksDBSerializationBuffer
@@ -323,6 +336,11 @@ pub proof fn lemma_ops_cost_take(ops: Seq<Operation>, i: int)
 #[verifier::external_body]
 pub struct DbHandle { _p: u8 }
 impl DbHandle {
+    /// DB::write_opt: hands the whole batch to RocksDB as one write
+    #[verifier::external_body]
+    pub fn write_opt(&self, batch: &rust_rocksdb::WriteBatch, opts: &rust_rocksdb::WriteOptions) -> (r: Result<(), std::fmt::Error>)
+        ensures r is Ok, written(batch.ops())
+    { unimplemented!() }
     #[verifier::external_body]
     pub fn get_cf<K: AsBytes>(&self, cf: &Handle, key: K) -> (r: Result<Option<Vec<u8>>, std::fmt::Error>)
         ensures r matches Ok(o) && (match o { Some(b) => stored(cf.ty(), cf.kind(), key.seq()) == Some(b@), None => stored(cf.ty(), cf.kind(), key.seq()) is None })
